@@ -265,13 +265,20 @@ def _check_accessors(ctx, case, seq, g, method):
     chk('lateralities', [_code(s.laterality) if s.laterality is not None else None for s in seq.finding_sites],
         [tuple(x) if x else None for x in g['lateralities']])
     chk('method', _code(seq.method) if seq.method is not None else None, tuple(g['method']) if g['method'] else None)
-    chk('measurements', [(_code(m.name), float(m.value), _code(m.unit)) for m in seq.get_measurements()],
-        [(tuple(n), float(v), tuple(u)) for n, v, u in g['measurements']])
+    def mdesc(m):
+        return (_code(m.name), float(m.value), _code(m.unit), _code(m.qualifier) if m.qualifier is not None else None,
+                _code(m.derivation) if m.derivation is not None else None, _code(m.method) if m.method is not None else None,
+                [_code(s.value) for s in m.finding_sites],
+                [(str(i.referenced_sop_class_uid), str(i.referenced_sop_instance_uid)) for i in m.referenced_images])
+    chk('measurements', [mdesc(m) for m in seq.get_measurements()],
+        [(tuple(n), float(v), tuple(u), tuple(x['qualifier']) if x.get('qualifier') else None,
+          tuple(x['derivation']) if x.get('derivation') else None, tuple(x['method']) if x.get('method') else None,
+          [tuple(t) for t in x.get('sites', [])], [tuple(i) for i in x.get('images', [])]) for n, v, u, x in g['measurements']])
     chk('evaluations', [(_code(e.name), _code(e.value)) for e in seq.get_qualitative_evaluations()],
         [(tuple(n), tuple(v)) for n, v in g['evaluations']])
-    for n, v, u in g['measurements'][:1]:
+    for n, v, u, _x in g['measurements'][:1]:
         got = [(float(m.value)) for m in seq.get_measurements(name=srreports.cc(n))]
-        want = [float(v2) for n2, v2, _ in g['measurements'] if tuple(n2) == tuple(n)]
+        want = [float(v2) for n2, v2, _, _ in g['measurements'] if tuple(n2) == tuple(n)]
         chk('measurements by name', got, want)
     ref = g['ref']
     t = ref['type']
@@ -606,7 +613,7 @@ def run(ctx):
     reqs2, pending2 = [], []
     spec_reqs, spec_pending = [], []
     _helpers(ctx, reqs2, pending2)
-    for idx in range(ctx.n(45, 600)):
+    for idx in range(ctx.n(38, 520)):
         res = _call(_report_case, ctx, idx)
         if res[0] != 'ok':
             ctx.fail({'stream': 'report', 'seed': ctx.seed, 'idx': idx}, f'a valid report could not be constructed: {res[2]}',
